@@ -211,8 +211,8 @@ pub struct Spellings {
     cases: Vec<(usize, usize, usize)>,
     scratch: Option<Scratch>,
 }
-const N_LIB_SPELLINGS: usize = 7;
-const N_BACK: usize = 4;
+const N_LIB_SPELLINGS: usize = 9;
+const N_BACK: usize = 5;
 impl Spellings {
     pub fn new() -> Self {
         let mut cases = vec![];
@@ -233,7 +233,11 @@ impl Spellings {
             | 3 => dir.join("lib.zy").display().to_string(),
             | 4 => "link.zy".into(),
             | 5 => "sub/up.zy".into(),
-            | _ => format!("{}/sub/../link.zy", dir.display()),
+            | 6 => format!("{}/sub/../link.zy", dir.display()),
+            // `..` after a symlink to a directory with another parent: resolves to other/target.zy (a
+            // symlink to lib.zy), while folding the text would give the decoy ./target.zy
+            | 7 => "dlink/../target.zy".into(),
+            | _ => format!("{}/dlink/../target.zy", dir.display()),
         }
     }
     fn back_spelling(dir: &Path, k: usize) -> Option<String> {
@@ -241,7 +245,9 @@ impl Spellings {
             | 0 => None,
             | 1 => Some(dir.join("root.zy").display().to_string()),
             | 2 => Some(dir.join("rootlink.zy").display().to_string()),
-            | _ => Some(format!("{}/sub/../root.zy", dir.display())),
+            | 3 => Some(format!("{}/sub/../root.zy", dir.display())),
+            // resolves to other/rootback.zy (a symlink to root.zy); the textual fold is a harmless decoy
+            | _ => Some(format!("{}/dlink/../rootback.zy", dir.display())),
         }
     }
 }
@@ -261,13 +267,13 @@ impl Check for Spellings {
     fn describe(&self, i: usize) -> String {
         let (a, b, back) = self.cases[i];
         let d = Path::new("<dir>");
-        format!("root.zy imports lib.zy as {:?} and as {:?}; lib.zy {}; links: link.zy -> lib.zy, sub/up.zy -> ../lib.zy, rootlink.zy -> root.zy", Self::lib_spelling(d, a), Self::lib_spelling(d, b), match Self::back_spelling(d, back) {
+        format!("root.zy imports lib.zy as {:?} and as {:?}; lib.zy {}; links: link.zy -> lib.zy, sub/up.zy -> ../lib.zy, rootlink.zy -> root.zy, dlink -> other/deep, other/target.zy -> ../lib.zy, other/rootback.zy -> ../root.zy; decoys target.zy, rootback.zy", Self::lib_spelling(d, a), Self::lib_spelling(d, b), match Self::back_spelling(d, back) {
             | None => "imports nothing".to_string(),
             | Some(s) => format!("imports the root back as {:?}", s),
         })
     }
     fn rule(&self) -> String {
-        format!("root.zy imports one file twice under every ordered pair of {} spellings (plain relative, `./`, through `sub/..`, absolute, a symlink in the same directory, a symlink in a subdirectory, absolute through `..` and a symlink), and that file imports nothing or the root back under {} absolute spellings (direct, symlink, through `..`): {} directory states, each loaded by the real CompilerSession::graph and analysed; oracle (reference: std::fs::canonicalize): without a back import the load succeeds with exactly two sources (each canonical file once), two import edges both ending in the same source, providers before consumers, and the program returns (1, 1); with a back import the load fails with a cycle whose steps connect exactly the two canonical files; states = directory states", N_LIB_SPELLINGS, N_BACK - 1, self.cases.len())
+        format!("root.zy imports one file twice under every ordered pair of {} spellings (plain relative, `./`, through `sub/..`, absolute, a symlink in the same directory, a symlink in a subdirectory, absolute through `..` and a symlink, relative and absolute through `..` after a symlink to a directory with another parent — where folding the text instead of asking the file system reaches a decoy file), and that file imports nothing or the root back under {} absolute spellings (direct, symlink, through `..`, through `..` after a directory symlink): {} directory states, each loaded by the real CompilerSession::graph and analysed; oracle (reference: std::fs::canonicalize): without a back import the load succeeds with exactly two sources (each canonical file once), two import edges both ending in the same source, providers before consumers, and the program returns (1, 1); with a back import the load fails with a cycle whose steps connect exactly the two canonical files; states = directory states", N_LIB_SPELLINGS, N_BACK - 1, self.cases.len())
     }
     fn run(&mut self, i: usize) -> CaseResult {
         let scratch = self.scratch.get_or_insert_with(|| Scratch::new("c09spell"));
@@ -285,6 +291,12 @@ impl Check for Spellings {
         let _ = std::os::unix::fs::symlink("lib.zy", dir.join("link.zy"));
         let _ = std::os::unix::fs::symlink("../lib.zy", dir.join("sub/up.zy"));
         let _ = std::os::unix::fs::symlink("root.zy", dir.join("rootlink.zy"));
+        std::fs::create_dir_all(dir.join("other/deep")).ok();
+        let _ = std::os::unix::fs::symlink("other/deep", dir.join("dlink"));
+        let _ = std::os::unix::fs::symlink("../lib.zy", dir.join("other/target.zy"));
+        let _ = std::os::unix::fs::symlink("../root.zy", dir.join("other/rootback.zy"));
+        std::fs::write(dir.join("target.zy"), "2").unwrap();
+        std::fs::write(dir.join("rootback.zy"), "3").unwrap();
         let mut r = CaseResult::ok("state").nontrivial(true).key(i as u64).count("states", 1).count("transitions", 1).count("traces", 1);
         let detail = |what: String| format!("{what}\nroot.zy = {root_text}\nlib.zy = {lib_text}");
         let canon = |p: &Path| std::fs::canonicalize(p).unwrap_or(p.to_path_buf());
